@@ -204,11 +204,13 @@ RESEND:
 	var sentOn *wire.ClientConn
 	var outages uint64
 	err := c.send(ctx, func(ctx context.Context) error {
+		// the mutex is not held during the write: Close, reconnect and other calls do not wait for a peer that has
+		// stopped reading
 		c.wireConnMu.Lock()
-		defer c.wireConnMu.Unlock()
 		sentOn = c.wireConn
 		outages = c.state.Outages()
-		return c.wireConn.SendUpstreamCall(ctx, msg)
+		c.wireConnMu.Unlock()
+		return sentOn.SendUpstreamCall(ctx, msg)
 	})
 	if err != nil {
 		return nil, err
